@@ -19,7 +19,7 @@ ALL_FLAV = {"sync", "thread", "async"}
 ENGINE = {
     "C01": dict(pols=ALL_POL, limits={0, 2}, ttls={0, 2}, maxmems={0, 3}, weights={"none"},
                 props=["M_C01"], mon="C01"),
-    "C04": dict(pols=ALL_POL, limits={1, 2}, ttls={0, 2}, maxmems={0, 3}, weights={"none", "0.3"},
+    "C04": dict(pols=ALL_POL, limits={1, 2}, ttls={0, 2}, maxmems={0, 3}, weights={"none", "0.3", "5000"},
                 props=["M_C04"], mon="C04"),
     "C05": dict(pols=ALL_POL, limits={0, 2}, ttls={0, 2}, maxmems={3}, weights={"none"},
                 props=["M_C05"], mon="C05"),
@@ -29,8 +29,18 @@ ENGINE = {
                 props=["M_C07"], mon="C07"),
     "C08": dict(pols={"lfu", "arc", "tlru"}, limits={0, 2}, ttls={0, 3}, maxmems={0, 3},
                 weights={"none", "0.3", "1.5"}, props=["M_C08"], mon="C08"),
-    "C16": dict(pols=ALL_POL, limits={1, 2}, ttls={0, 1}, maxmems={0, 3}, weights={"none", "3"},
+    "C16": dict(pols=ALL_POL, limits={1, 2}, ttls={0, 1}, maxmems={0, 3}, weights={"none", "3", "5000"},
                 props=["M_C16"], mon="C16"),
+}
+
+# as-found defects as specification switches: (quirk, constants narrowing the model to where it shows)
+QUIRK_REFUTES = {
+    "C01": [("async_keep_old", {"Flavs": {"async"}, "Pols": {"fifo"}})],
+    "C04": [("async_tlru_overflow_unevictable", {"Flavs": {"async"}, "Pols": {"tlru"}, "Weights": {"5000"},
+                                                 "Limits": {1}, "Ttls": {0}, "Maxmems": {0}})],
+    "C07": [("async_recency_needs_limit", {"Flavs": {"async"}, "Pols": {"lru"}})],
+    "C08": [("async_rank_reversed", {"Flavs": {"async"}, "Pols": {"arc"}})],
+    "C16": [("tl_reborrow_panic", {"Flavs": {"thread"}, "Pols": {"lfu"}})],
 }
 
 THOROUGH_EXTRA = dict(limits={0, 1, 2, 3}, ttls={0, 1, 2, 3}, maxmems={0, 3, 5},
@@ -108,7 +118,7 @@ def run_engine_check(pid, tier, seed, wd):
         spec["ttls"] = set(spec["ttls"]) | ({1, 3} if spec["ttls"] != {0} else set())
         spec["maxmems"] = set(spec["maxmems"]) | {5}
         if "tlru" in spec["pols"]:
-            spec["weights"] = set(THOROUGH_EXTRA["weights"])
+            spec["weights"] = set(spec["weights"]) | set(THOROUGH_EXTRA["weights"])
     mon = spec["mon"]
     t_start = time.time()
     info = {}
@@ -138,6 +148,24 @@ def run_engine_check(pid, tier, seed, wd):
                   "proved": ["StateOK", "GhostAgrees", "GhostFromState"] + spec["props"] + ["StatsExact"]}
     log("[%s] TLC proved %s on %d states / %d transitions (%.0fs)" %
         (pid, spec["props"], mc["distinct"], mc["generated"], mc["wall_s"]))
+
+    # non-vacuity: with the as-found behaviour switched on (quirk), TLC must REFUTE this property on the
+    # same specification -- otherwise the proof above would say nothing about it
+    for quirk, qconst in QUIRK_REFUTES.get(pid, []):
+        qcfg = os.path.join(wd, "EngineMC_%s.cfg" % quirk)
+        qc = dict(consts)
+        qc.update(qconst)
+        qc["Quirks"] = {quirk}
+        write_cfg(qcfg, "Spec", qc, invariants=["StateOK"], properties=spec["props"], constraint="Bounded",
+                  view="View")
+        qr = tlc_mc("EngineMC", qcfg, pid + "_mcq_" + quirk, workers=6, timeout=600)
+        refuted = (not qr["ok"]) and any("violated" in e or "is violated" in e for e in qr["errors"] + qr["out"].splitlines()[-60:])
+        if not refuted:
+            raise ToolError("quirk %s: TLC did not refute %s on the specification:\n%s" %
+                            (quirk, spec["props"], qr["out"][-1500:]))
+        info.setdefault("quirk_refutations", []).append(quirk)
+        log("[%s] non-vacuity: with quirk %s (the as-found behaviour) TLC refutes %s on the specification" %
+            (pid, quirk, spec["props"]))
 
     if pid == "C16":
         # design level: RefCell discipline of the thread-local engine (TLBorrow.tla): the repaired nesting
@@ -170,6 +198,15 @@ def run_engine_check(pid, tier, seed, wd):
         bb["max_states"] = per_cfg
     job = {"groups": [{"cfgs": cfgs_a, "bounds": ba}, {"cfgs": cfgs_b, "bounds": bb}]}
     info["explore_bounds"] = {"ttl=0": ba, "ttl>0": bb}
+    # extreme frequency_weight: hits^w overflows in f64 from two hits on, so these configurations are
+    # explored with two hits per entry also in the quick tier
+    cfgs_x = [c for c in cfgs if c["w"] == "5000"]
+    if cfgs_x and not thorough:
+        for g in job["groups"]:
+            g["cfgs"] = [c for c in g["cfgs"] if c["w"] != "5000"]
+        bx = {"keys": keys, "sizes": [2, 4], "max_ver": 3, "max_hits": 2, "seeds": 2}
+        job["groups"].append({"cfgs": cfgs_x, "bounds": bx})
+        info["explore_bounds"]["w=5000"] = bx
     job_path = os.path.join(wd, "explore_job.json")
     json.dump(job, open(job_path, "w"))
     edges = os.path.join(wd, "edges.ndjson")
